@@ -511,35 +511,59 @@ def stream(spec, rng, index, n_random, walk=None):
 
 
 # --------------------------------------------------------------------- decoding helpers
-FIRST_DECODE = [None]     # what the first of the two decodings returned (instruction or None)
+def x86_order_dependent(data, mode):
+    """x86 byte strings whose decoding by mn.dis is not a function of the bytes: a 0F-map opcode
+    behind an operand-size prefix 66 that is not the last legacy prefix (66 F2 0F 2C ..., 66 2E 0F
+    ...).  The table classes with a mandatory 66 prefix rewrite the *shared* pre_dis_info['opmode']
+    while the candidates are tried, so the operand size the other candidates see depends on the
+    iteration order of a set of classes and on what was decoded before (observed: CVTTSD2SI EAX vs
+    AX for the same bytes).  Such candidates are left out of the verdicts of C14-C17 and counted."""
+    raw = bytearray(data)
+    i = 0
+    seen66 = False
+    last = None
+    while i < len(raw) and raw[i] in _X86_LEGACY:
+        if raw[i] == 0x66:
+            seen66 = True
+        last = raw[i]
+        i += 1
+    if not seen66 or last == 0x66:
+        return False
+    if mode == 64:
+        while i < len(raw) and 0x40 <= raw[i] <= 0x4F:
+            i += 1
+    return i < len(raw) and raw[i] == 0x0F
 
 
 def decode(spec, data, addr=0):
-    """(instr, None) or (None, exception class name).  The bytes are mapped at `addr`.
+    """(instr, None) or (None, reason).  The bytes are mapped at `addr`.
 
-    mn.dis is *history dependent* on x86 (state left in the shared table-class instances: after
-    `66 0F 2C 00`, `66 F2 0F 2C 40 9A` decodes as CVTTSD2SI AX instead of EAX).  Every candidate is
-    therefore decoded twice and the second result is used: it is a function of the bytes alone
-    (the previous decode of every class involved is the same bytes), so verdicts and finding keys
-    do not depend on the order of the corpus.  The first result is kept in FIRST_DECODE for C17."""
+    Every candidate is decoded twice; when the two results differ (mn.dis keeps state in the shared
+    table-class instances), or the bytes are of the x86 family described in x86_order_dependent,
+    the candidate is reported as 'order_dependent' and not used: verdicts and finding keys must not
+    depend on the order of the corpus or on the memory layout of the process."""
     from miasm.core.bin_stream import bin_stream_str
     from miasm.core.cpu import Disasm_Exception
-    FIRST_DECODE[0] = None
+    if spec.unit == 1 and x86_order_dependent(data, spec.mode):
+        return None, "order_dependent"
+    first = None
     try:
-        FIRST_DECODE[0] = spec.mn.dis(bin_stream_str(data, base_address=addr), spec.mode, addr)
+        first = spec.mn.dis(bin_stream_str(data, base_address=addr), spec.mode, addr)
     except Exception:
         pass
     try:
         bs = bin_stream_str(data, base_address=addr)
         instr = spec.mn.dis(bs, spec.mode, addr)
     except Disasm_Exception:
-        return None, "Disasm_Exception"
+        return None, "Disasm_Exception" if first is None else "order_dependent"
     except IOError:
         return None, "IOError"
     except Exception as exc:     # other decoder exceptions are counted by the checks (not a verdict of C14-C17)
         return None, type(exc).__name__
     if instr is None or not instr.l or instr.l > len(data):
         return None, "no_instr"
+    if first is None or first.l != instr.l or not same_instr(first, instr):
+        return None, "order_dependent"
     return instr, None
 
 
